@@ -116,20 +116,100 @@ DRAIN_RE = r"Pull :: for_each \(|pull :: accumulate\w* \("
 
 
 def _enclosing(t, pos):
+    """kinds of the conditional / loop groups enclosing token position `pos` of a template. An `if` whose every branch (there must be a final `else`) also
+    drains is not counted: the input is pulled whichever way the condition goes."""
+    toks = t.split(" ")
+    # token index of the character position
+    acc = 0
+    target = None
+    for i, tok in enumerate(toks):
+        if acc >= pos:
+            target = i
+            break
+        acc += len(tok) + 1
+    if target is None:
+        target = len(toks)
+    # brace matching
+    match = {}
+    st = []
+    for i, tok in enumerate(toks):
+        if tok == "{":
+            st.append(i)
+        elif tok == "}" and st:
+            o = st.pop()
+            match[o] = i
     stack = []
     last_kw = None
-    for tok in t[:pos].split(" "):
+    last_kw_at = None
+    for i, tok in enumerate(toks[:target]):
         if tok in ("if", "while", "for", "match", "else", "loop"):
-            last_kw = tok
+            if not (tok == "if" and last_kw == "else" and last_kw_at == i - 1):
+                last_kw, last_kw_at = tok, i
+            else:
+                last_kw, last_kw_at = "else", i      # `else if`: still part of the chain
         if tok == "{":
-            stack.append(last_kw)
+            stack.append((last_kw, i))
             last_kw = None
         elif tok == "}":
             if stack:
                 stack.pop()
         elif tok == ";":
             last_kw = None
-    return [s_ for s_ in stack if s_]
+    out = []
+    for kw, o in stack:
+        if not kw:
+            continue
+        if kw in ("if", "else") and _all_branches_drain(toks, match, o):
+            continue
+        out.append(kw)
+    return out
+
+
+def _all_branches_drain(toks, match, o):
+    """`o` opens one block of an if / else-if / else chain: does the chain end in a plain `else` and does every block of it contain a drain?"""
+    import re
+
+    def head(bo):
+        """tokens between the previous `{` / `}` / `;` and this block's `{`"""
+        j = bo - 1
+        while j >= 0 and toks[j] not in ("{", "}", ";"):
+            j -= 1
+        return j, toks[j + 1:bo]
+    blocks = [o]
+    cur = o
+    while True:
+        j, h = head(cur)
+        if j >= 0 and toks[j] == "}" and h[:1] == ["else"]:
+            prev_open = [a_ for a_, b_ in match.items() if b_ == j]
+            if not prev_open:
+                break
+            cur = prev_open[0]
+            blocks.insert(0, cur)
+        else:
+            break
+    cur = blocks[-1]
+    while cur in match:
+        c = match[cur]
+        if c + 1 < len(toks) and toks[c + 1] == "else":
+            k = c + 2
+            while k < len(toks) and toks[k] != "{":
+                k += 1
+            if k >= len(toks):
+                break
+            blocks.append(k)
+            cur = k
+        else:
+            break
+    if len(blocks) < 2 or head(blocks[-1])[1] != ["else"]:
+        return False
+    for bo in blocks:
+        if bo not in match:
+            return False
+        body = " ".join(toks[bo:match[bo] + 1])
+        if not re.search(DRAIN_RE, body):
+            return False
+    return True
+
 
 
 def drainall_rule(ctx):
